@@ -3095,10 +3095,13 @@ class ChannelManager:
         # Connect
         try:
             await connection_result
-        except Exception:
-            logger.exception('connection failed')
+        except BaseException as error:
+            # (BaseException: the caller may also give up, by cancelling us)
+            if isinstance(error, Exception):
+                logger.exception('connection failed')
+            pending_connections.pop(identifier, None)
             for cid in source_cids:
-                del connection_channels[cid]
+                connection_channels.pop(cid, None)
             raise
 
         # Remember the channel by source CID and destination CID
